@@ -40,6 +40,7 @@ def run(ctx):
     r1_plain_is_stripped_extended(ctx, sep)
     r2_predicates(ctx)
     r3_note_by_note(ctx, sep)
+    r3b_separator_marks_signifiers(ctx)
     r4_header(ctx)
     r5_factory(ctx)
     r6_chords(ctx)
@@ -531,6 +532,29 @@ def r6_chords(ctx):
             ok = ok and len(calls) == 1 and len(calls[0].keywords) == 1 and calls[0].keywords[0].arg is None \
                 and F.is_name(calls[0].keywords[0].value, kw) and not calls[0].args
         ok = ok and not any(isinstance(x, (ast.Break, ast.Continue, ast.Return)) for x in ast.walk(lp))
+    # what the notes exported to is written out note by note: no comprehension / filter() drops some of the exported texts again
+    note_lists = {'self.notes_tokens'}
+    changed = True
+    while changed:
+        changed = False
+        for a in walk_local(ch.node):
+            if isinstance(a, ast.Assign) and len(a.targets) == 1 and isinstance(a.targets[0], ast.Name) and a.targets[0].id not in note_lists \
+                    and any(isinstance(x, (ast.Name, ast.Attribute)) and src(x) in note_lists for x in ast.walk(a.value)):
+                note_lists.add(a.targets[0].id)
+                changed = True
+    for n in walk_local(ch.node):
+        dropped = None
+        if isinstance(n, (ast.ListComp, ast.GeneratorExp, ast.SetComp)):
+            for g in n.generators:
+                if g.ifs and any(isinstance(x, (ast.Name, ast.Attribute)) and src(x) in note_lists for x in ast.walk(g.iter)):
+                    dropped = f'`{src(n)[:70]}`'
+        if isinstance(n, ast.Call) and F.is_name(n.func, 'filter') and len(n.args) == 2 \
+                and any(isinstance(x, (ast.Name, ast.Attribute)) and src(x) in note_lists for x in ast.walk(n.args[1])):
+            dropped = f'`{src(n)[:70]}`'
+        if dropped:
+            ctx.violation('R6', f'{ch.module.relpath}:{n.lineno}', ch.qualname, 'chord-notes-filtered',
+                          f'{dropped} removes some of the notes (or of their exported texts) from the chord: a note whose selected part is '
+                          f'empty loses its place, the remaining parts move to other notes')
     ctx.check(ok, 'R6', ch.loc, ch.qualname, 'chord-covers-all-notes',
               'ChordToken.export exports every note of the chord with the same keyword arguments',
               'ChordToken.export does not export every note with **kwargs (a note is lost or exported unfiltered)')
@@ -543,3 +567,37 @@ def r6_chords(ctx):
         ctx.check(okv, 'R6', f.loc, f.qualname, f'verbatim-export:{qn}',
                   f'{qn}.export returns the stored text whatever the encoding options (non-note cells are identical in the six encodings)',
                   f'{qn}.export returns {[src(v)[:50] for _, v, _ in rets]}')
+
+
+# --------------------------------------------------------------------------- R3 (writer side): the separator marks where the signifiers begin
+def r3b_separator_marks_signifiers(ctx):
+    """The basic tokenizers find the signifiers of a note by the FIRST decoration separator of its extended text (reader).  The
+    writer, NoteRestToken.export, must therefore put that separator in front of the signifier part on every path that writes
+    signifiers - also when the filter leaves nothing of the pitch / duration part.  Otherwise the first signifier is taken for
+    the pitch part and survives in the basic encodings."""
+    from . import export_model as EM
+    fi = ctx.prog.func(f'{N.TOKENS}.NoteRestToken.export')
+    sources = ['self.pitch_duration_subtokens', 'self.decoration_subtokens']
+    n = 0
+    bad = []
+
+    def scan(pieces):
+        nonlocal n
+        for i, p in enumerate(pieces):
+            if p.kind == 'join' and p.seq.source == 'self.decoration_subtokens':
+                n += 1
+                prev = pieces[i - 1] if i > 0 else None
+                if not (prev is not None and prev.kind == 'const' and prev.text == 'DECORATION_SEPARATOR'):
+                    bad.append((p.node.lineno, repr(prev) if prev is not None else 'nothing'))
+            if p.inner:
+                scan(p.inner)
+    for ep in EM.export_paths(ctx, fi, sources):
+        if ep.unmodelled(sources):
+            raise AnalysisError(f'{fi.loc}: `{ep.unmodelled(sources)[0].text[:60]}` uses a sub-token list in a way the element-wise model does not follow')
+        scan(ep.pieces)
+    ctx.expect_count('R3', 'paths of NoteRestToken.export that write signifiers', n, 1)
+    ctx.check(not bad, 'R3', fi.loc, fi.qualname, 'separator-marks-signifiers',
+              f'on each of the {n} paths that write signifiers the decoration separator stands directly in front of them',
+              f'on {len(bad)} path(s) the signifier part is preceded by {sorted(set(b for _, b in bad))[:2]} instead of the decoration separator: the '
+              f'basic tokenizers cut a note at its first decoration separator, so without it (pitch part filtered away) the first signifier '
+              f'is kept as if it were the pitch')
